@@ -79,5 +79,19 @@ theorem stage_status (o : Outcomes) :
   unfold handle
   refine ⟨?_, ?_, ?_, ?_, ?_, ?_⟩ <;> intros <;> simp_all [securityCode, decodeCode, contentTypeCode]
 
+/-! line protocol: `stage <route> <sec 0|1> <params 0|1> <body none|ct|malformed> <handler ok<status>|other|notimpl|declared<status>>` -/
+def stageLine (line : String) : String :=
+  match (line.splitOn " ").filter (· ≠ "") with
+  | [rt, sec, par, body, h] =>
+    let route := match rt with | "noPath" => RouteOutcome.noPath | "wrongMethod" => .wrongMethod | _ => .found
+    let b := match body with | "ct" => some BodyFail.wrongContentType | "malformed" => some .malformed | _ => none
+    let ho : HandlerOutcome :=
+      if h.startsWith "ok" then .ok (h.drop 2).toString.toNat!
+      else if h.startsWith "declared" then .declaredError (h.drop 8).toString.toNat!
+      else if h == "notimpl" then .notImplemented else .otherError
+    let r := handle ⟨route, sec == "1", par == "1", b, ho⟩
+    " ".intercalate (r.statuses.map toString) ++ (if r.handlerInvoked then " h1" else " h0")
+  | _ => "bad"
+
 #print axioms no_overaccept
 end Stages
